@@ -424,7 +424,7 @@ class MGraph:
             raise MGraphError("InternalError", "Cannot get edge ID, no such edge")
         return -1
 
-    def bfsiter(self, vid: Any, mode: Any = OUT, advanced: bool = False) -> list[Any]:
+    def bfsiter(self, vid: Any, mode: Any = OUT, advanced: bool = False) -> Any:
         start = self._vid(vid)
         m = _mode(mode)
         seen = {start}
@@ -438,8 +438,8 @@ class MGraph:
                     order.append((w, d + 1, v))
                     q.append((w, d + 1))
         if advanced:
-            return [(MVertex(self, v), d, MVertex(self, p) if p is not None else None) for v, d, p in order]
-        return [MVertex(self, v) for v, _d, _p in order]
+            return iter([(MVertex(self, v), d, MVertex(self, p) if p is not None else None) for v, d, p in order])
+        return iter([MVertex(self, v) for v, _d, _p in order])
 
     def get_all_simple_paths(self, v: Any, to: Any = None, cutoff: int = -1, mode: Any = OUT) -> list[list[int]]:
         start = self._vid(v)
